@@ -25,6 +25,7 @@ ASSUME = ["A2: container counts < 2^29 and lengths cast to i32 < 2^31", "A3: dev
 def check(ctx, run):
     run.rules_run = ['R20.1', 'R20.2', 'R20.3', 'R20.4']
     recursion.rrec(ctx, run, 'R20.1', ENTRY, {'document'}, 'recursion on document nesting depth', floor=5)
+    recursion.depth_counter_pairing(ctx, run, 'R20.6')
     cg = recursion.augment(ctx)
     cone = cg.reachable([e for e in ENTRY if e in ctx.facts.bodies])
     run.floor('R20.2', 'C20 entry points', len([e for e in ENTRY if e in ctx.facts.bodies]), 16)
